@@ -5,14 +5,27 @@ UNITS = ["http.c", "http-internal.h", "evutil.c"]
 FUNCTIONS = ["evhttp_make_header", "evhttp_make_header_request", "evhttp_make_header_response", "evhttp_add_header",
              "evhttp_header_is_valid_value", "evhttp_add_header_internal", "evhttp_response_code_", "evhttp_make_request",
              "evhttp_maybe_add_date_header", "evhttp_maybe_add_content_length_header", "evhttp_send_reply_chunk_with_cb", "evhttp_send_reply_end"]
-BOUNDS = "one caller header (name <=4, value <=6 symbolic bytes), reason phrase / target <=4 symbolic bytes, status 100..599, body 0..2 bytes; HTTP/1.0 and 1.1"
-OUT = "work in progress"
-TEXT = "work in progress"
-NOTE = ""
-ASSUMPTIONS = []
+BOUNDS = 'head: caller header name <=4 / value <=6 (thorough 8) symbolic bytes, reason phrase / target <=6 (8), status 100..599, HTTP/1.0 and 1.1, 7 methods, body length 0..99999; acceptance: name <=4 (5), value / phrase / target <=6 (8) symbolic bytes; chunked reply: data length any size_t; format lemma: name 1..2, value 0..4 (thorough 0..6) bytes with enumerated lengths, reason / target <=6 (8)'
+OUT = 'more than one caller header per message (the header loop is the same for each); automatic headers that depend on the request being answered (Connection: keep-alive / close, Content-Type default) are exercised only in their absent form; caller header names equal to Date/Content-Length/Transfer-Encoding (suppress the automatic ones); evhttp_send_error / evhttp_send_page_ HTML bodies (htmlescape is C29); Date text (evutil_date_rfc1123 stub); bytes actually reaching the socket (bufferevent, C17)'
+TEXT = "Three-part argument: (a) the real evhttp_make_header writes exactly start line, caller's header verbatim, documented automatic headers, CRLF, body (recording sink: sequence and arguments of evbuffer_add_printf/add/add_buffer); (b) what evhttp_add_header, evhttp_response_code_ and evhttp_make_request accept and store is 'safe' (token name; value whose CR/LF form single obs-folds; reason without control characters; non-empty target without control characters) and stored unchanged; (c) lemma decided on the reference alone: a head formatted from safe components is read back by the RFC 9112 reference recipient (lenient and CRLF-only) as exactly those components - no extra field, no early end of the header section. Plus (d) chunked replies: chunk-size equals the data length for every size_t, terminator written."
+NOTE = '5 defects with fix proposals (fixes/C26-*.diff): header value with two line breaks, non-token header names, reason phrase and request target with CR/LF, chunk size truncated to 32 bits. ISO C printf semantics (%s copies the string, %d/%x print the number) connect (a) and (c).'
+ASSUMPTIONS = ['evbuffer_add_printf/evbuffer_add/evbuffer_add_buffer append their result to the buffer in call order (recording sink env/http_recsink.h)', 'evutil_date_rfc1123 returns a short text without CR/LF', 'evhttp_send_done and bufferevent_setcb/enable are recorders (C27)']
 DESIGN_REF = "DESIGN.md §5 C26"
 
+def _with_token_set(obs):
+    # evhttp_add_header checks names against the 77-character token alphabet (strspn): the membership loop of the
+    # strspn/strpbrk model needs up to 78 rounds on that constant set
+    for o in obs:
+        us = list(o.get("unwindset", []))
+        if not any(u.startswith("vp_in_set.0:") for u in us):
+            us.append("vp_in_set.0:80")
+        o["unwindset"] = us
+    return obs
+
 def obligations(tier):
+    return _with_token_set(_obligations(tier))
+
+def _obligations(tier):
     obs = []
     # (a) sequence of writes == format(components)
     Kh, Vh = (4, 6) if tier == "quick" else (4, 8)
@@ -33,8 +46,15 @@ def obligations(tier):
                     instrument=[["--replace-calls", "evhttp_send_done:vp_cut_send_done"]], native=False, timeout=600, mem_gb=4,
                     desc="send_reply_start/chunk/end on HTTP/1.%d: chunk-size == data length for every size_t length; terminator written" % mi))
     # (c) format lemma (reference only)
-    for what in ("FIELD", "STATUS", "REQUEST"):
+    for what in ("STATUS", "REQUEST"):
         obs.append(dict(name="lemma_" + what.lower(), harness="C26_lemma.c", entry="harness_lemma",
-                    defines=["VP_LEM_" + what, "VP_K=3", "VP_V=%d" % V], unwind=V + 3 + 36, timeout=900, mem_gb=6,
-                    desc="format lemma: head built from safe components parses back to exactly them (reference recipient, lenient and CRLF-only)"))
+                    defines=["VP_LEM_" + what, "VP_K=2", "VP_V=%d" % V], unwind=V + 36, timeout=900, mem_gb=6,
+                    desc="format lemma: start line built from a safe %s (<=%d symbolic bytes) parses back to exactly it" % ("reason phrase" if what == "STATUS" else "target", V)))
+    # field lemma: lengths enumerated (name 1..2, value 0..VL), bytes symbolic
+    sizes = [(1, 3), (2, 4)] if tier == "quick" else [(kl, vl) for kl in (1, 2) for vl in range(0, 7)]
+    for (kl, vl) in sizes:
+        if True:
+            obs.append(dict(name="lemma_field_k%dv%d" % (kl, vl), harness="C26_lemma.c", entry="harness_lemma",
+                        defines=["VP_LEM_FIELD", "VP_FIXED_LEN", "VP_K=%d" % kl, "VP_V=%d" % vl], unwind=kl + vl + 12, timeout=900, mem_gb=6,
+                        desc="format lemma: header section built from a safe field (name %d, value %d symbolic bytes) parses back to exactly that field (lenient and CRLF-only recipient)" % (kl, vl)))
     return obs
